@@ -1378,3 +1378,90 @@ twin('C07', 'gc-findreachable-reordered-guard', PACKPY, 'GC.findReachable',
             # These mappings are no longer needed and may consume a lot of
             # space.
             del self.oid2curpos''')
+
+# ---------------------------------------------------------------- C14
+breaker('C14', 'writer-unknown-tag', 'C14.R1', SERPY, 'ObjectWriter.persistent_id',
+        "return ['n', (database_name, oid)]", "return ['x', (database_name, oid)]")
+breaker('C14', 'writer-m-field-order', 'C14.R1', SERPY,
+        'ObjectWriter.persistent_id',
+        "return ['m', (database_name, oid, klass)]",
+        "return ['m', (oid, database_name, klass)]")
+breaker('C14', 'reader-n-loader-removed', 'C14.R1', SERPY, 'ObjectReader',
+        "    loaders['n'] = load_multi_oid\n", "")
+breaker('C14', 'cr-m-arity', 'C14.R1', CRPY, 'PersistentReference.__init__',
+        "self.database_name, self.oid, klass = data[1]",
+        "self.database_name, self.oid = data[1][:2]; klass = None")
+breaker('C14', 'load-oid-no-normalise', 'C14.R2', SERPY, 'ObjectReader.load_oid',
+        '''        if not isinstance(oid, bytes):
+            assert isinstance(oid, str)
+            # this happens when all bytes in the oid are < 0x80
+            oid = oid.encode('ascii')
+        obj = self._cache.get(oid, None)
+        if obj is not None:
+            return obj
+        return self._conn.get(oid)''', '''        obj = self._cache.get(oid, None)
+        if obj is not None:
+            return obj
+        return self._conn.get(oid)''')
+breaker('C14', 'referencesf-no-normalise', 'C14.R2', SERPY, 'referencesf',
+        '''        if not isinstance(oid, bytes):
+            assert isinstance(oid, str)
+            # this happens when all bytes in the oid are < 0x80
+            oid = oid.encode('ascii')
+
+        oids.append(oid)''', '''        oids.append(oid)''')
+breaker('C14', 'persistent-id-by-value-for-foreign', 'C14.R3', SERPY,
+        'ObjectWriter.persistent_id',
+        '''            if not self._jar.db().xrefs:
+                raise InvalidObjectReference(''',
+        '''            if self._jar.db().xrefs is None:
+                return None
+            if not self._jar.db().xrefs:
+                raise InvalidObjectReference(''')
+breaker('C14', 'load-persistent-no-cache-lookup', 'C14.R4', SERPY,
+        'ObjectReader.load_persistent',
+        '''        obj = self._cache.get(oid, None)
+        if obj is not None:
+            return obj
+
+        if isinstance(klass, tuple):''', '''        if isinstance(klass, tuple):''')
+breaker('C14', 'load-persistent-ghost-not-registered', 'C14.R4', SERPY,
+        'ObjectReader.load_persistent',
+        '''        self._cache.new_ghost(oid, obj)
+        return obj''', '''        return obj''')
+breaker('C14', 'referencesf-includes-weak', 'C14.R5', SERPY, 'referencesf',
+        '''            assert isinstance(reference, list)
+            continue
+
+        if not isinstance(oid, bytes):
+            assert isinstance(oid, str)
+            # this happens when all bytes in the oid are < 0x80
+            oid = oid.encode('ascii')
+
+        oids.append(oid)''', '''            assert isinstance(reference, list)
+            oid = reference[1][0]
+
+        if not isinstance(oid, bytes):
+            assert isinstance(oid, str)
+            # this happens when all bytes in the oid are < 0x80
+            oid = oid.encode('ascii')
+
+        oids.append(oid)''')
+breaker('C14', 'referencesf-tuple-element-1', 'C14.R5', SERPY, 'referencesf',
+        'oid = reference[0]', 'oid = reference[1]')
+breaker('C14', 'referencesf-drops-bare', 'C14.R5', SERPY, 'referencesf',
+        '''        elif isinstance(reference, (bytes, str)):
+            oid = reference
+        else:''', '''        elif isinstance(reference, (bytes, str)):
+            continue
+        else:''')
+twin('C14', 'referencesf-branches-reordered', SERPY, 'referencesf',
+     '''        if isinstance(reference, tuple):
+            oid = reference[0]
+        elif isinstance(reference, (bytes, str)):
+            oid = reference
+        else:''', '''        if isinstance(reference, (bytes, str)):
+            oid = reference
+        elif isinstance(reference, tuple):
+            oid = reference[0]
+        else:''')
